@@ -162,6 +162,31 @@ func init() {
 				k.(ed25519.PrivateKey).Sign(nil, msg, &ed25519.Options{Context: strings.Repeat("c", 255)})
 			}})
 	}
+	// PrivateKey.Equal on keys of other (equal) lengths than 64: 32 (a bare seed held in a PrivateKey), 40,
+	// 63, 65, 96, 128 - secrets agreeing with the other key in their first j bytes, for every multiple of 4
+	for _, kl := range []int{32, 40, 63, 65, 96, 128} {
+		kl := kl
+		other := make([]byte, kl)
+		for i := range other {
+			other[i] = byte(0x33 + i)
+		}
+		secrets := func(bool) [][]byte {
+			var out [][]byte
+			for j := 0; j <= kl; j += 4 {
+				k := append([]byte{}, other...)
+				for i := j; i < kl; i++ {
+					k[i] ^= 0x5a
+				}
+				out = append(out, k)
+			}
+			k := append([]byte{}, other...)
+			k[kl-1] ^= 1
+			return append(out, k)
+		}
+		c20scenarios = append(c20scenarios,
+			c20scenario{fmt.Sprintf("PrivateKey.Equal(receiver secret), %d-byte keys", kl), secrets, nil, func(s []byte, _ interface{}) { ed25519.PrivateKey(s).Equal(ed25519.PrivateKey(other)) }},
+			c20scenario{fmt.Sprintf("PrivateKey.Equal(argument secret), %d-byte keys", kl), secrets, nil, func(s []byte, _ interface{}) { ed25519.PrivateKey(other).Equal(ed25519.PrivateKey(s)) }})
+	}
 	for _, cl := range []int{0, 1, 255} {
 		ctx := strings.Repeat("p", cl)
 		c20scenarios = append(c20scenarios, c20scenario{fmt.Sprintf("Sign-ph, %d-byte context", cl), small, func(s []byte) interface{} { return stdKey(s) }, func(s []byte, k interface{}) {
